@@ -6,6 +6,7 @@ import argparse, concurrent.futures as cf, json, os, shutil, subprocess, sys, te
 V=os.path.dirname(os.path.abspath(__file__))
 ENV=dict(os.environ,GOFLAGS="-mod=mod",GOPROXY="off",GOSUMDB="off",GOTOOLCHAIN="local"); ENV.pop("GOWORK",None)
 PROPS=[c["property_id"] for c in json.load(open(os.path.join(V,"MANIFEST.json")))["checks"]]
+if os.environ.get("BENIGN_PROPS"): PROPS=[p for p in PROPS if p in os.environ["BENIGN_PROPS"].split(",")]  # developer shortcut: only the checks whose rules changed
 def run(e):
     tmp=tempfile.mkdtemp(prefix="uxben-")
     try:
